@@ -73,6 +73,12 @@ def make_jobs(rng, d, njobs, nfiles):
     return jobs, files
 
 
+def aba(hist, nfiles):
+    """the jobs that go through a CsvPaths instance visit the files X, Y, X: one name re-registered to earlier content"""
+    fs = [(s["j"] - 1) % nfiles for s in hist if s["op"] == "job" and s["via"] == "paths"]
+    return any(fs[i] == fs[i + 2] != fs[i + 1] for i in range(len(fs) - 2))
+
+
 def _replay(args):
     seed, idx, hist, njobs, nfiles = args
     rng = random.Random(seed * 9176 + idx)
@@ -98,8 +104,8 @@ def _replay(args):
         elif st["op"] == "clearcache":
             cur.append({"op": "clearcache"})
         else:
-            # every other job that goes through a CsvPaths instance is a named run: its file registered under one shared name
-            cur.append(dict(jobs[st["j"] - 1], via=st["via"], named=(st["via"] == "paths" and (idx + len(cur)) % 2 == 0), _j=st["j"], _st=st))
+            # in every other history the jobs that go through a CsvPaths instance are named runs: the file registered under one shared name
+            cur.append(dict(jobs[st["j"] - 1], via=st["via"], named=(st["via"] == "paths" and (idx % 2 == 0 or aba(hist, nfiles))), _j=st["j"], _st=st))
     segs.append(cur)
     pos = 0
     for seg in segs:
@@ -160,6 +166,8 @@ def main(tier):
     rng.shuffle(rest)
     cap = 60 if tier == "quick" else 1500
     hists += key[: cap] + rest[: max(0, cap - len(key))]
+    # one name registered with content X, then Y, then X again (the jobs run as named runs)
+    hists += [h for h in full if aba(h, nfiles) and h not in hists][: 12 if tier == "quick" else 200]
     with open(os.path.join(spec, "_gen_H_sim.cfg"), "w") as f:
         f.write(cfg(sim[1], emit=True))
     r3 = require_ok(run_tlc("History", "_gen_H_sim.cfg", timeout=600, keep_stdout=False, workers=1, simulate=f"num={sim[0]}",
